@@ -5,10 +5,10 @@ CONSTANTS
   SyncMode = "none"
   MaxOps = 3
   MaxBatch = 1
-  MaxImm = 2
-  MaxFiles = 3
-  MaxCrash = 1
-  MaxLevel = 2
+  MaxImm = 1
+  MaxFiles = 2
+  MaxCrash = 2
+  MaxLevel = 1
   DKeys = {"k1", "k2"}
   DVals = {"v1"}
   DSync = "none"
@@ -16,5 +16,6 @@ CONSTANTS
   DMaxBatch = 1
 INVARIANT Inv
 PROPERTY LastSeqMonotone
+PROPERTY RefinesDurable
 CONSTRAINT StateBound
 CHECK_DEADLOCK FALSE
